@@ -293,6 +293,28 @@ def assembleFrames (rows : List (List Rat)) (ori : List Rat) (hint rtol atol : O
       | none => .error .index
     | _, _ => .error .value
 
+/-- `Image._get_stacked_volume_geometry` WITH slice selection (`get_volume(slice_start, slice_end, as_indices=True)`, indices
+already zero-based and non-negative — their standardisation `_standardize_slice_indices` is property C03's): the volume is
+assembled as `assembleFrames` does, then `geometry[slice_start:slice_end]` moves the origin `slice_start` spacings along the
+normal of the volume and keeps `slice_end − slice_start` slices; a frame is kept iff its slice lies in the range and then sits
+`slice_start` slices lower.  `slice_end` beyond the volume is an IndexError, an empty range a ValueError.
+Result: spacing, origin row, number of slices, (zero-based frame, slice) of every kept frame. -/
+def assembleFramesSel (rows : List (List Rat)) (ori : List Rat) (hint rtol atol : Option Rat) (allowMissing : Bool)
+    (start stop : Nat) : Except ErrKind (Rat × List Rat × Int × List (Nat × Int)) := do
+  let (sp, origin, n, vp) ← assembleFrames rows ori hint rtol atol allowMissing
+  if n < (stop : Int) then .error .index
+  else if stop ≤ start then .error .value
+  else
+    let oo ← (match Ori.ofList ori with | some x => pure x | none => .error .value : Except ErrKind Ori)
+    let cv ← normConvention Gen.volumeIndexConvention
+    let nrm ← normalVector oo cv true
+    match V3.ofList origin with
+    | none => .error .value
+    | some o =>
+      let o' := o.add (V3.smul ((start : Rat) * sp) nrm)
+      pure (sp, o'.toList, (stop : Int) - (start : Int),
+            vp.zipIdx.filterMap fun (v, f) => if (start : Int) ≤ v ∧ v < (stop : Int) then some (f, v - (start : Int)) else none)
+
 /-- `get_series_volume_positions` on single-frame datasets given as (orientation, position) pairs with their
 `SpacingBetweenSlices` values `sbs`; the hint is their common value (`commonHint`).  Differing orientations (compared
 exactly, as the code compares the attribute values) are `(None, None)`. -/
